@@ -187,27 +187,39 @@ def run(eng: Engine, ck: Check):
     ck.ob('R-C13-ADVERT', gav, gav.node, 'advertised position = (own name, 0) without parent or as branch root, else (parent root, parent level + 1)',
           len(want_noparent) == 1 and len(want_root) == 1 and len(want_child) == 1 and len(rows) == 3, f'rows {rows}',
           construct='advertised position function')
+    def advertised_pair(fn: FuncInfo):
+        """names bound by `root, level = self._get_advertised_branch_values()` in fn"""
+        r_ = pfind(fn.node, '$root, $level = self._get_advertised_branch_values()')
+        return (r_[0][1]['root'], r_[0][1]['level']) if len(r_) == 1 else None
+
+    def request_with(fn: FuncInfo, cls_name: str, arg_expr: str) -> list:
+        out_ = []
+        for x_ in calls_in(fn.node):
+            if call_name(x_) == 'Request' and unparse(x_.func) == f'{cls_name}.Request' and x_.args and unparse(expand_aliases(fn, x_.args[0])) == arg_expr:
+                out_.append(x_)
+            elif call_name(x_) == 'Request' and unparse(x_.func) == f'{cls_name}.Request' and x_.args and unparse(x_.args[0]) == arg_expr:
+                out_.append(x_)
+        return out_
     nsp = eng.func(DIST, f'{DN}._notify_server_of_parent')
     ncb = eng.func(DIST, f'{DN}._notify_children_of_branch_values')
     ck.visited(nsp)
     ck.visited(ncb)
-    src = unparse(nsp.node)
-    tup = [n for n in walk_local(nsp.node) if isinstance(n, ast.Assign) and isinstance(n.value, ast.Call) and call_name(n.value) == '_get_advertised_branch_values']
-    ok = len(tup) == 1 and [unparse(t) for t in tup[0].targets[0].elts] == ['root', 'level'] and 'BranchLevel.Request(level)' in src and \
-        'BranchRoot.Request(root)' in src and 'ToggleParentSearch.Request(search_for_parent)' in src
+    pr = advertised_pair(nsp)
+    tg = [x_ for x_ in calls_in(nsp.node) if unparse(x_.func) == 'ToggleParentSearch.Request' and x_.args and isinstance(x_.args[0], ast.Name)]
+    SFP = tg[0].args[0].id if len(tg) == 1 else 'search_for_parent'
+    ok = pr is not None and len(request_with(nsp, 'BranchLevel', pr[1])) == 1 and len(request_with(nsp, 'BranchRoot', pr[0])) == 1 and len(tg) == 1
     ck.ob('R-C13-ADVERT', nsp, nsp.node, 'the server is told BranchLevel(level), BranchRoot(root) from the advertised position, and ToggleParentSearch',
           ok, '', construct='server notification content')
-    sfp = [n for n in walk_local(nsp.node) if isinstance(n, ast.Assign) and unparse(n.targets[0]) == 'search_for_parent']
+    sfp = [n for n in walk_local(nsp.node) if isinstance(n, ast.Assign) and unparse(n.targets[0]) == SFP]
     ok = any(isinstance(n.value, ast.IfExp) and unparse(n.value.test) == 'self.parent' and const(n.value.body) is False and const(n.value.orelse) is True
              or unparse(n.value) in ('not self.parent', 'self.parent is None') for n in sfp)
     ck.ob('R-C13-ADVERT', nsp, nsp.node, 'parent search is requested iff there is no parent', ok, f'{[unparse(n) for n in sfp]}', construct='toggle parent search')
     sends = calls_on(nsp.node, 'send_server_messages')
     ck.ob('R-C13-ADVERT', nsp, nsp.node, 'the three messages are sent unconditionally', len(sends) == 1 and not eng.guards_at(nsp, sends[0]), '',
           construct='server notification unconditional')
-    src = unparse(ncb.node)
-    tup = [n for n in walk_local(ncb.node) if isinstance(n, ast.Assign) and isinstance(n.value, ast.Call) and call_name(n.value) == '_get_advertised_branch_values']
-    ok = len(tup) == 1 and [unparse(t) for t in tup[0].targets[0].elts] == ['root', 'level'] and 'DistributedBranchLevel.Request(level)' in src and \
-        'DistributedBranchRoot.Request(root)' in src and len(calls_on(ncb.node, 'send_messages_to_children')) == 1
+    pr = advertised_pair(ncb)
+    ok = pr is not None and len(request_with(ncb, 'DistributedBranchLevel', pr[1])) == 1 and len(request_with(ncb, 'DistributedBranchRoot', pr[0])) == 1 and \
+        len(calls_on(ncb.node, 'send_messages_to_children')) == 1
     ck.ob('R-C13-ADVERT', ncb, ncb.node, 'children are told DistributedBranchLevel(level), DistributedBranchRoot(root) from the advertised position', ok, '',
           construct='children notification content')
 
@@ -262,11 +274,10 @@ def run(eng: Engine, ck: Check):
     ok = any(not eng.guards_at(osi, call) for call in calls_on(osi.node, '_notify_server_of_parent'))
     ck.ob('R-C13-ADVERT', osi, osi.node, 'the initial position is advertised to the server after login', ok, '', construct='initial advert')
     ac = eng.func(DIST, f'{DN}._add_child')
-    src = unparse(ac.node)
-    lv = [c for c in calls_on(ac.node, 'send_message') if 'DistributedBranchLevel.Request(level)' in unparse(c)]
-    rt = [c for c in calls_on(ac.node, 'send_message') if 'DistributedBranchRoot.Request(root)' in unparse(c)]
-    ok = len(lv) == 1 and not [g for g in eng.guards_at(ac, lv[0]) if 'connection' not in unparse(g[0])] and len(rt) == 1 and \
-        '_get_advertised_branch_values' in src
+    pr = advertised_pair(ac)
+    lv = [c for c in calls_on(ac.node, 'send_message') if pr and any(x_ in list(ast.walk(c)) for x_ in request_with(ac, 'DistributedBranchLevel', pr[1]))]
+    rt = [c for c in calls_on(ac.node, 'send_message') if pr and any(x_ in list(ast.walk(c)) for x_ in request_with(ac, 'DistributedBranchRoot', pr[0]))]
+    ok = pr is not None and len(lv) == 1 and not [g for g in eng.guards_at(ac, lv[0]) if 'connection' not in unparse(g[0])] and len(rt) == 1
     ck.ob('R-C13-ADVERT', ac, ac.node, 'a new child is told our level (and the root unless we are level 0) from the advertised position', ok, '',
           construct='new child told position')
 
@@ -290,8 +301,12 @@ def run(eng: Engine, ck: Check):
     ck.ob('R-C13-LIMITS', gus, gus.node, 'children are accepted iff avg speed >= parent_min_speed * 1024', ok and any('* 1024' in unparse(e) for e, _ in thr),
           f'{vals}', construct='accept threshold')
     mc = eng.func(DIST, f'{DN}._calculate_max_children')
-    ck.ob('R-C13-LIMITS', mc, mc.node, 'max children = int(speed / ((ratio / 10) * 1024))', 'parent_speed_ratio / 10 * 1024' in unparse(mc.node) and
-          'int(upload_speed / divider)' in unparse(mc.node), '', construct='max children formula')
+    sp_, rt_ = [p_ for p_ in mc.params if p_ != 'self'][:2]
+    mrets = [expand_aliases(mc, n.value) for n in walk_local(mc.node) if isinstance(n, ast.Return) and n.value is not None]
+    forms = [f'int({sp_} / ({rt_} / 10 * 1024))', f'int({sp_} / (1024 * ({rt_} / 10)))', f'int({sp_} / ({rt_} * 1024 / 10))', f'int({sp_} / ({rt_} * 102.4))']
+    ck.ob('R-C13-LIMITS', mc, mc.node, 'max children = int(speed / ((ratio / 10) * 1024))',
+          len(mrets) == 1 and any(pat.match(mrets[0], pat.compile_pattern(f_)[0]) is not None for f_ in forms),
+          f'returns `{unparse(mrets[0]) if mrets else None}`', construct='max children formula')
     snd = [c for c in calls_in(gus.node) if call_name(c) == 'Request' and 'AcceptChildren' in unparse(c.func)]
     ok = len(snd) == 1 and unparse(snd[0].args[0]) == 'self._accept_children'
     ck.ob('R-C13-LIMITS', gus, gus.node, 'the server is told AcceptChildren with the stored flag', ok, '', construct='accept children sent')
